@@ -97,7 +97,7 @@ package stat
 // resource — also when another thread registered one between this thread's lookup and its taking the write lock
 // (what it knew about the registry is stale then): every entry of a resource is accounted on the same node (C01)
 //@ func GetOrCreateResourceNode(resource, resourceType) r
-//@   ensures[returns-the-registered-node]{C01,C02,C15} r != nil && allocated(r) && resNodeMap[resource] == r
+//@   ensures[returns-the-registered-node]{C01,C02,C04,C15} r != nil && allocated(r) && resNodeMap[resource] == r
 //@   modifies mapof(resNodeMap)
 
 // ---- C15: the resource-node registry is only touched under its lock
